@@ -230,6 +230,7 @@ class DRYRule(BaseLintRule):  # pylint: disable=too-many-instance-attributes
             inline_ignore=self._helpers.inline_ignore,
             shared_parser=ignore_parser,
             file_contents=self._file_contents,
+            project_root=self._project_root,
         )
 
         violations = self._helpers.violation_generator.generate_violations(
